@@ -142,7 +142,7 @@ def skipToEOL : Nat → SM Unit
     match ← attempt next with
     | .error _ => pure ()
     | .ok b =>
-      if b == 10 then pure ()
+      if b == 10 || b == 12 then pure ()   -- LF or FF end a comment
       else if b == 13 then skipOptionalByte 10
       else skipToEOL fuel
 
@@ -177,7 +177,7 @@ def skipBlanks : Nat → SM Unit
     | .error .eof => pure ()
     | .error e => fail e
     | .ok b =>
-      if b == 10 || b == 13 || b > 32 then pure ()
+      if b == 10 || b == 13 || b == 12 || b > 32 then pure ()
       else do skipByte; skipBlanks fuel
 
 def readLine : Nat → List UInt8 → SM (List UInt8)
@@ -187,7 +187,7 @@ def readLine : Nat → List UInt8 → SM (List UInt8)
     | .error .eof => pure acc
     | .error e => fail e
     | .ok b =>
-      if b == 10 then pure acc
+      if b == 10 || b == 12 then pure acc
       else if b == 13 then do skipOptionalByte 10; pure acc
       else readLine fuel (acc ++ [b])
 
